@@ -56,17 +56,17 @@ def verify (paths : List D) (old new : Acc D) : Option Bool :=
   verifyPeaks H dflt paths new.count new.peaks old.peaks old.count 0 0
 
 /-- the `while !indices_of_new_peaks.contains(&current_index)` loop: sibling node indices from an old peak up to
-    the new peak above it -/
+    the new peak above it.  `parent(..)` not returning (`none`) makes the round `none`.
+    (Written with `Option.bind` rather than `match parent idx, parent rs with`: a `match` whose discriminant contains
+    the translated word arithmetic makes equation-lemma generation evaluate `% 2^64` on open terms.) -/
 def neededLoop (new_peak_indices : List Nat) : Nat → Nat → Nat → List Nat → Option (List Nat)
   | 0, _, _, _ => none
   | fuel+1, idx, h, acc =>
     if new_peak_indices.contains idx then some acc else
-    let rs := right_sibling idx h
-    match parent idx, parent rs with
-    | some pi, some prs =>
-      if prs ≠ pi then neededLoop new_peak_indices fuel pi (inc32 h) (acc ++ [left_sibling idx h])
-      else neededLoop new_peak_indices fuel pi (inc32 h) (acc ++ [rs])
-    | _, _ => none
+    (parent idx).bind fun parent_index =>
+    (parent (right_sibling idx h)).bind fun parent_of_right_sibling =>
+      neededLoop new_peak_indices fuel parent_index (inc32 h)
+        (acc ++ [if parent_of_right_sibling ≠ parent_index then left_sibling idx h else right_sibling idx h])
 
 /-- for one path: find the first still-needed entry whose node index is `index`; store `node`, clear the entry -/
 def fillOne (index : Nat) (node : D) (path : List D) (needed : List (Option (Nat × Nat))) :
